@@ -70,7 +70,8 @@ b64decode(const char *in, size_t l, string *out)
 
 				c = strchr(b64alpha, in[i + j]);
 
-				if (!c) {
+				/* strchr() also finds the terminating '\0' of the alphabet */
+				if (!c || !*c) {
 					free(out->s);
 					return 1;
 				}
